@@ -133,6 +133,15 @@ def enc_cap(name, a, b, c):
         assume(1 <= c <= 3)
         fam = AFI_SAFI_NAMES[(afi, safi)]
         return 69, struct.pack('!HBB', afi, safi, c), ('add_path', {'afi_safi': fam, 'send/receive': {1: 'receive', 2: 'send', 3: 'both'}[c]}, 'append')
+    if name == 'addpath2':
+        afi, safi = P.get('ap2', (2, 1))
+        fam = AFI_SAFI_NAMES[(afi, safi)]
+        return 69, struct.pack('!HBB', afi, safi, 1), ('add_path', {'afi_safi': fam, 'send/receive': 'receive'}, 'append')
+    if name == 'addpath-two-tuples':
+        assume(1 <= c <= 3)
+        return 69, struct.pack('!HBB', 1, 1, c) + struct.pack('!HBB', 2, 1, 2), \
+            ('add_path', [{'afi_safi': 'ipv4', 'send/receive': {1: 'receive', 2: 'send', 3: 'both'}[c]},
+                          {'afi_safi': 'ipv6', 'send/receive': 'send'}], 'extend')
     if name == 'extnh':
         assume(0 <= a < 65536 and 0 <= b < 65536)
         return 5, struct.pack('!HHH', a, b, 2), ('ext_nexthop', {'afi_safi': [a, b], 'nexthop_afi': 2}, 'append')
@@ -173,6 +182,8 @@ def ob_open_indep(asn: int, hold: int, a: int, b: int, c: int) -> bool:
             expect[key] = ev
         elif kind == 'append':
             expect.setdefault(key, []).append(ev)
+        elif kind == 'extend':
+            expect.setdefault(key, []).extend(ev)
         else:
             expect[str(code)] = None     # value text not compared (repr of bytes)
     if packaging == 'each':
@@ -257,6 +268,14 @@ def obligations(tier, seed):
             for pk in (('each', 'one', 'mixed') if not quick else ('mixed', 'one')):
                 out.append(ob('C14/indep/%s/%s' % ('-'.join(pm), pk), 'ob_open_indep', {'caps': list(pm), 'packaging': pk, 'unk_code': 99},
                               covers=['parsed']))
+    # several ADD-PATH capabilities in one OPEN (one per address family), and one capability with several tuples
+    for pk in ('each', 'one', 'mixed'):
+        out.append(ob('C14/indep/addpath+addpath2/%s' % pk, 'ob_open_indep', {'caps': ['addpath', 'addpath2'], 'packaging': pk},
+                      covers=['parsed']))
+        out.append(ob('C14/indep/addpath2+mp+addpath/%s' % pk, 'ob_open_indep',
+                      {'caps': ['addpath2', 'mp', 'addpath'], 'packaging': pk, 'ap2': (1, 4)}, covers=['parsed']))
+    out.append(ob('C14/indep/addpath-two-tuples/each', 'ob_open_indep', {'caps': ['addpath-two-tuples'], 'packaging': 'each'},
+                  covers=['parsed']))
     out.append(ob('C14/indep/four/mp-rr-as4-addpath/mixed', 'ob_open_indep',
                   {'caps': ['mp', 'rr', 'as4', 'addpath'], 'packaging': 'mixed'}, covers=['parsed']))
     return out
